@@ -3,6 +3,7 @@ mod c01;
 mod c02;
 mod c03;
 mod c04;
+mod c10;
 
 use vh::report::Args;
 
@@ -12,6 +13,7 @@ fn main() {
         "c01" => c01::run(&args),
         "c02" => c02::run(&args),
         "c03" => c03::run(&args),
+        "c10" => c10::run(&args),
         "c04" => c04::run(&args),
         other => {
             eprintln!("unknown subcommand {other}");
